@@ -608,8 +608,13 @@ impl File {
             roots.push(ast::Root::Face(face.into()))
         }
         for (i, &u) in self.header.additional_data.iter().enumerate() {
-            let i: u8 = i.try_into().unwrap();
-            let i = i.checked_add(18).unwrap(); // TODO: gotta be a warning here
+            // A HEADER index is a single byte, so only the header words 18 through 255
+            // can be written in a property list file. Any further words are dropped.
+            // TODO: gotta be a warning here
+            let i: u8 = match u8::try_from(i).ok().and_then(|i| i.checked_add(18)) {
+                Some(i) => i,
+                None => break,
+            };
             roots.push(ast::Root::Header((ast::DecimalU8(i), u).into()))
         }
         #[derive(Clone, Copy)]
